@@ -331,7 +331,9 @@ def run(chk: Check):
     from .c03 import rule_e9
     from ..pyflow import Index as _Ix
     rule_e9(chk, _Ix())  # an error object that cannot be constructed is not a well-formed error
-
+    from .c12 import rule_source_verbatim
+    from ..pyflow import Index as _Ix
+    rule_source_verbatim(chk, _Ix())   # spans and error text refer to the caller's text
 
 def _run(chk: Check):
     chk.explanation = (
